@@ -203,6 +203,9 @@ class err_handler(object):
                 self.seg_node_added = True
                 return
             self.cur_st_node.children.append(self.cur_seg_node)
+            # a segment node is only added when it carries an error: a set that
+            # was already closed as accepted is not accepted any more
+            self.cur_st_node.ack_code = 'R'
             self.seg_node_added = True
 
     def add_ele(self, map_node):
